@@ -48,7 +48,7 @@ def strategy(tier):
         pts = G.draw_points(draw, model, 3, need)
         dt = draw(st.sampled_from([0.01, 0.5, 1.0, 1e-3]))
         comp = draw(st.integers(0, len(COMPILERS[tier]) - 1))
-        return {"model": model, "points": pts, "dt": dt, "compiler": comp, "tier": tier}
+        return {"model": model, "points": pts, "dt": dt, "compiler": comp, "tier": tier, "delta": draw(st.sampled_from([1e-8, 1e-8, 0.5, 2.0]))}
 
     return _s()
 
@@ -92,7 +92,7 @@ def check_case(case):
     schemes = ["explicit_euler"] + (["generalized_rush_larsen"] if grl_ok(model) else [])
     grl_failed = False
     try:
-        code = B.c_code(ode, schemes=schemes)
+        code = B.c_code(ode, schemes=schemes, delta=case.get("delta", 1e-8))
     except Exception as ex:
         # a Rush-Larsen linearisation that cannot be generated is C06's business; here the
         # rest of the translation unit must still be produced
@@ -154,7 +154,7 @@ def check_case(case):
             rounding = False
             try:
                 if pymod is None:
-                    pymod = PyMod(B.py_code(ode, schemes=schemes))
+                    pymod = PyMod(B.py_code(ode, schemes=schemes, delta=case.get("delta", 1e-8)))
                 pg = pymod.call(fname, pt, dt=dt)[pymod.index("monitor" if fname == "monitor_values" else "state")[name]]
                 hv = pymod.shim_call(fname, pt, dt=dt)[pymod.index("monitor" if fname == "monitor_values" else "state")[name]]
                 if oracle.close_real(hv, ref, K=64) and abs(mpf(float(pg)) - mpf(float(g))) <= mpf(10) ** -9 * max(abs(mpf(float(pg))), abs(ref.val)):
@@ -184,7 +184,7 @@ def check_case(case):
             if kind == "ok" and r.relerr() < 1e-9:
                 exp_mon[a["name"]] = r
         compare("monitor_values", midx, exp_mon, pt)
-        sr = schemeref.SchemeRef(model, pt, case["dt"])
+        sr = schemeref.SchemeRef(model, pt, case["dt"], delta=case.get("delta", 1e-8))
         for sch in schemes:
             exp = {}
             for s in model["states"]:
